@@ -236,7 +236,8 @@ def stress_expect(line):
     n, cap, kind = int(kv.get("n", 1000)), int(kv.get("cap", 4)), kv.get("kind")
     if t[0] == "qstress":
         return {"drain": f"drain removed={n} falseempty=0 outoforder=0 lenbad=0 final=0", "fill": f"fill failed=0 lenbad=0 final={n}",
-                "pc": "pc missing=0 dup=0 invented=0 orderbad=0 final=0"}[kind]
+                "pc": "pc missing=0 dup=0 invented=0 orderbad=0 final=0",
+                "badd": "badd failed=0 overlimit=0 missing=0 dup=0 orderbad=0 final=0"}[kind]
     return {"force": f"force lenbad=0 pushok=0 forcefailed=0 final={cap}",
             "drain": f"drain removed={n} falseempty=0 outoforder=0 lenbad=0 final=0"}[kind]
 
@@ -252,10 +253,12 @@ def stress_predicate(line, obs):
 def gen_stress(rng, tier):
     big = tier != "quick"
     n = rng.choice([2000, 5000] if not big else [20000, 50000])
-    k = rng.choice(["drain", "drain", "fill", "pc"])
-    c = ["qstress", ["kind", k], ["n", n if k != "pc" else n // 4], ["spin", rng.choice([2, 3, 4])]]
+    k = rng.choice(["drain", "drain", "fill", "pc", "badd", "badd"])
+    c = ["qstress", ["kind", k], ["n", n if k not in ("pc", "badd") else n // 4], ["spin", rng.choice([2, 3, 4])]]
     if k == "pc":
         c += [["prod", rng.choice([1, 2, 3])], ["cons", rng.choice([1, 2, 3])]]
+    if k == "badd":
+        c += [["prod", rng.choice([2, 3, 4, 8])], ["cons", rng.choice([1, 1, 2])], ["cap", rng.choice([1, 1, 2, 3])]]
     return C.sx(c)
 
 
@@ -307,7 +310,7 @@ def gen_pre(rng):
     if kind < 0.4:
         cfg = ["cfg", "unlimited"]
     else:
-        hard = rng.choice([1, 2, 3, 4, 6]); soft = rng.choice([0] + list(range(1, hard + 1)))
+        hard = rng.choice([1, 2, 3, 4, 6]); soft = rng.choice([0, -1, -3] + list(range(1, hard + 1)))
         cfg = ["cfg", "soft", hard, soft, rng.choice([0, 1, 1, 3]), rng.choice([1, 2])]
     ops = []
     for _ in range(rng.choice([3, 6, 12, 25])):
@@ -357,7 +360,7 @@ def gen_cfg(rng):
     if rng.random() < 0.35:
         return ["cfg", "unlimited"]
     hard = rng.choice([1, 2, 3, 4, 6])
-    soft = rng.choice([0, 1, hard, max(1, hard // 2)])
+    soft = rng.choice([0, 1, hard, max(1, hard // 2), -1, -2])   # a soft quota <= 0 is "valid, defaulted to the hard limit"
     soft = min(soft, hard)
     bn, bd = rng.choice([(0, 1), (1, 1), (2, 1), (1, 2), (3, 2), (5, 1)])
     return ["cfg", "soft", hard, soft, bn, bd]
